@@ -147,6 +147,39 @@ func faults01() []fault01 {
 			}
 			w.Q.SignQE(w.PKI.Leaf.Key)
 		}},
+		// the same report-data faults on a quote WITHOUT authentication data (the binding is then the digest of the key alone)
+		{"empty-authdata/report-data-tail-nonzero", "reject", func(w *world.World, r *mrand.Rand) {
+			w.Q.AuthData = nil
+			w.Q.BindQE()
+			w.Q.QeReport[0x160+r.Intn(32)] = byte(1 + r.Intn(255))
+			w.Q.SignQE(w.PKI.Leaf.Key)
+		}},
+		{"empty-authdata/report-data-tail-all-ones", "reject", func(w *world.World, r *mrand.Rand) {
+			w.Q.AuthData = []byte{}
+			w.Q.BindQE()
+			for i := 0x160; i < 0x180; i++ {
+				w.Q.QeReport[i] = 0xff
+			}
+			w.Q.SignQE(w.PKI.Leaf.Key)
+		}},
+		{"empty-authdata/report-data-hash-wrong-in-last-byte", "reject", func(w *world.World, r *mrand.Rand) {
+			w.Q.AuthData = nil
+			w.Q.BindQE()
+			w.Q.QeReport[0x15f] ^= 0x80
+			w.Q.SignQE(w.PKI.Leaf.Key)
+		}},
+		{"empty-authdata/control", "accept", func(w *world.World, r *mrand.Rand) {
+			w.Q.AuthData = nil
+			w.Requote()
+		}},
+		{"empty-authdata/digest-at-another-offset", "reject", func(w *world.World, r *mrand.Rand) {
+			w.Q.AuthData = nil
+			w.Q.BindQE()
+			h := append([]byte{}, w.Q.QeReport[0x140:0x160]...)
+			copy(w.Q.QeReport[0x140:0x180], make([]byte, 64))
+			copy(w.Q.QeReport[0x140+1+r.Intn(32):], h)
+			w.Q.SignQE(w.PKI.Leaf.Key)
+		}},
 		{"authdata-extended-not-rebound", "reject", func(w *world.World, r *mrand.Rand) { w.Q.AuthData = append(w.Q.AuthData, byte(r.Intn(256))) }},
 		// one zero byte moves across the boundary between the QE authentication data and the PCK chain (the parser tolerates
 		// one NUL behind the PEM chain): the four size fields follow, every byte of the quote is still there, but the
